@@ -1,4 +1,6 @@
 """C05 -- cash and shares are conserved; holdings equal endowment plus own fills."""
+from hypothesis import strategies as st
+
 from ..common import CaseInfo
 from ..oracles import Analysis, check_c05
 from ..simharness import run_case
@@ -12,7 +14,7 @@ RULE = ("Hypothesis generates whole configurations (1-3 markets, optional index 
         "endowment captured after setup is folded (Fraction arithmetic) with the distinct ExecutionLogs in trace order and "
         "compared with EVERY agent's cash/shares at every step-begin/step-end record and inside every executed_order "
         "callback, plus totals per market. Non-trivial = run with >=1 multi-fill round and >=1 self-trade, or >=3 trading "
-        "agents on >=2 markets; distinct by hash of (config, seed).")
+        "agents on >=2 markets; distinct by hash of (config, seed). (lean) the repository's sample configurations with the shipped, untraced agent classes, all sessions executing, and a logger that folds every fill into a ledger of plain numbers and drops the record: holdings = endowment + ledger at every session end (the recording harness keeps all records alive, which can hide defects that depend on records being released).")
 ASSUMPTIONS = ["cash compared with rel 1e-9 / abs 1e-6 against an exact rational fold; shares exactly",
                "agents only submit to markets they can access (configuration precondition of pams)"]
 
@@ -42,6 +44,82 @@ def samples_check(case):
 
 
 PARTS["samples"] = {"check": samples_check, "strategy": lambda tier: sample_cases(), "budget": {"quick": 64, "thorough": 1600}}
+
+
+# -- a run nobody watches closely: plain agents, a logger that keeps numbers and drops the records ------------------------------
+
+
+@st.composite
+def _lean_cases(draw, tier):
+    case = draw(sample_cases(traced=False, probe=False))
+    ses = case["config"]["simulation"]["sessions"]
+    # every session executes (the samples open with a placement-only session), and there is a third one
+    for s_ in ses:
+        s_["withOrderExecution"] = True
+    if draw(st.booleans()):
+        ses.append(dict(ses[-1], sessionName=len(ses), iterationSteps=draw(st.integers(10, 40)), events=[]))
+    return case
+
+
+def _lean_check(case):
+    """The recording harness keeps every record alive, which can hide defects that depend on records being released.  Here the
+    shipped agent classes run untraced, the logger folds each fill into a ledger of plain numbers at delivery and forgets
+    the record; at every session end (and at the end) every agent's holdings must equal endowment + ledger."""
+    import copy
+    import random
+    from fractions import Fraction
+
+    from pams.logs.base import Logger
+    from pams.runners.sequential import SequentialRunner
+
+    from ..common import Violation, classify_exception
+
+    class Ledger(Logger):
+        def __init__(self):
+            super().__init__()
+            self.cash, self.shares, self.n, self.sim, self.problems = {}, {}, 0, None, []
+
+        def process_execution_log(self, log):
+            amount = Fraction(log.price) * log.volume
+            self.cash[log.buy_agent_id] = self.cash.get(log.buy_agent_id, 0) - amount
+            self.cash[log.sell_agent_id] = self.cash.get(log.sell_agent_id, 0) + amount
+            for a, sgn in ((log.buy_agent_id, 1), (log.sell_agent_id, -1)):
+                self.shares[(a, log.market_id)] = self.shares.get((a, log.market_id), 0) + sgn * log.volume
+            self.n += 1
+
+        def process_session_end_log(self, log):
+            self.audit(f"end of session {log.session.session_id}")
+
+        def audit(self, where):
+            for a in self.sim.agents:
+                want_c = self.init[a.agent_id][0] + self.cash.get(a.agent_id, 0)
+                if abs(Fraction(a.cash_amount) - want_c) > Fraction(1, 10**6) * max(1, abs(want_c)):
+                    self.problems.append(f"{where}: agent {a.agent_id} has cash {a.cash_amount!r}, endowment + delivered fills = {float(want_c)!r} ({self.n} fills so far)")
+                for mid, v in a.asset_volumes.items():
+                    want_s = self.init[a.agent_id][1][mid] + self.shares.get((a.agent_id, mid), 0)
+                    if v != want_s:
+                        self.problems.append(f"{where}: agent {a.agent_id} holds {v} of market {mid}, endowment + delivered fills = {want_s} ({self.n} fills so far)")
+
+    lg = Ledger()
+    r = SequentialRunner(settings=copy.deepcopy(case["config"]), prng=random.Random(case["seed"]), logger=lg)
+    try:
+        r._setup()
+        lg.sim = r.simulator
+        lg.init = {a.agent_id: (Fraction(a.cash_amount), dict(a.asset_volumes)) for a in r.simulator.agents}
+        r._run()
+    except Exception as e:  # noqa: BLE001
+        crash = classify_exception(e)
+        if crash is None:
+            raise
+        raise crash
+    lg.audit("end of run")
+    if lg.problems:
+        raise Violation("C05.holdings_equal_endowment_plus_fills", lg.problems[0] + (f" (+{len(lg.problems) - 1} more)" if len(lg.problems) > 1 else ""))
+    return CaseInfo(nontrivial=lg.n >= 20, classes=["lean_" + case["sample"]] + (["fills"] if lg.n else []), steps=lg.n,
+                    sample={"sample": case["sample"], "seed": case["seed"], "fills": lg.n, "sessions": [s_["iterationSteps"] for s_ in case["config"]["simulation"]["sessions"]]})
+
+
+PARTS["lean"] = {"check": _lean_check, "strategy": _lean_cases, "budget": {"quick": 320, "thorough": 4800}}
 
 
 def vacuity(merged, tier):
